@@ -1,45 +1,54 @@
 /-
-  driver <ops> <impl> <out>
+  driver <prop> <ops> <impl> <out>
   Reads op lines and the implementation's outcome lines in lockstep; for every op writes
      <model outcome>\t<verdict of the property judge on the implementation outcome>
 -/
 import Axelar.Driver.AbiOps
+import Axelar.Driver.WorldOps
+import Axelar.Driver.Judge
 open Axelar Axelar.Driver
 
-structure St where
-  dummy : Unit := ()
+structure RunSt where
+  d : DState := {}
+  /-- the implementation and the model disagreed earlier in this sequence -/
+  diverged : Bool := false
 
-def stepLine (st : St) (line : String) (impl : Option Outcome) : St × Outcome × String :=
+def stepLine (prop : String) (rs : RunSt) (line : String) (impl : Option Outcome) :
+    RunSt × Outcome × String :=
   let fields := (line.trimAscii.toString.splitOn " ").filter (· ≠ "")
   match fields with
   | f :: _ =>
     if f.startsWith "abi." then
       let (o, v) := abiOp fields impl
-      (st, o, v)
-    else (st, .okPlain, "ok")
-  | [] => (st, .okPlain, "ok")
+      (rs, o, v)
+    else
+      let verdict := if rs.diverged then "ok" else judge prop rs.d fields impl
+      let (d', o) := worldOp rs.d fields
+      let div := if f == "reset" then false else rs.diverged || !(agree impl o)
+      ({ d := d', diverged := div }, o, verdict)
+  | [] => (rs, .okPlain, "ok")
 
-partial def loop (ops impl : IO.FS.Stream) (out : IO.FS.Handle) (st : St) : IO Unit := do
+partial def loop (prop : String) (ops impl : IO.FS.Stream) (out : IO.FS.Handle) (st : RunSt) : IO Unit := do
   let line ← ops.getLine
   if line.isEmpty then return ()
   let il ← impl.getLine
   if line.trimAscii.toString.isEmpty then
-    loop ops impl out st
+    loop prop ops impl out st
   else
     let io := if il.isEmpty then none else parseOutcome il.trimAscii.toString
-    let (st', o, v) := stepLine st line io
-    out.putStrLn s!"{o.fmt}\t{v}"
-    loop ops impl out st'
+    let (st', o, v) := stepLine prop st line io
+    out.putStrLn s!"{fmtOutcome o}\t{v}"
+    loop prop ops impl out st'
 
 def main (args : List String) : IO UInt32 := do
   match args with
-  | [ops, impl, out] =>
+  | [prop, ops, impl, out] =>
     let oh ← IO.FS.Handle.mk ops .read
     let ih ← IO.FS.Handle.mk impl .read
     let wh ← IO.FS.Handle.mk out .write
-    loop (IO.FS.Stream.ofHandle oh) (IO.FS.Stream.ofHandle ih) wh {}
+    loop prop (IO.FS.Stream.ofHandle oh) (IO.FS.Stream.ofHandle ih) wh {}
     wh.flush
     return 0
   | _ =>
-    IO.eprintln "usage: driver <ops> <impl> <out>"
+    IO.eprintln "usage: driver <prop> <ops> <impl> <out>"
     return 2
